@@ -18,13 +18,13 @@ theorem isStart_false_of_isEnd {e : Event} (h : isEnd e = true) : isStart e = fa
 theorem run_fire {f start : Nat} {end_ : Option Nat} {e tail : Event} {inner rest' : List (Item σ)}
     {mts mts1 : List (MT σ)} {idx : Nat} {t : MT σ}
     (hS : isStart e = true) (hsc : scan e start end_ 0 mts = (mts1, some idx)) (ht : mts1[idx]? = some t)
-    (hb : t.buffered = true) (hcl : Closed (evs inner)) (htail : isEnd tail = true) :
+    (hcl : Closed (evs inner)) (htail : isEnd tail = true) :
     run (f + 1) start end_ (.ev e :: (inner ++ .ev tail :: rest')) mts =
       (run f start (some (preEnd t idx)) inner (fired t idx mts1)).bind fun q3 =>
       (run f (idx + 1) end_ (evItems (instantiate t.body (e :: q3.2 ++ [tail]))) q3.1).bind fun q4 =>
       (run f start end_ rest' (updRange tail start (idx + 1) 0 q4.1)).map fun p => (p.1, q4.2 ++ p.2) := by
   have hstrip := strip_of_closed inner 0 tail rest' hcl (isStart_false_of_isEnd htail) htail
-  simp only [run, hS, ↓reduceIte, hsc, ht, hb, Bool.not_true, Bool.false_eq_true, hstrip]
+  simp only [run, hS, ↓reduceIte, hsc, ht, hstrip]
   cases h3 : run f start (some (preEnd t idx)) inner (fired t idx mts1) with
   | none => simp
   | some q3 =>
@@ -126,7 +126,7 @@ theorem run_identity : ∀ (f start : Nat) (end_ : Option Nat) (items : List (It
         have hi' : ∀ t, Item.reg t ∈ rest → NeverFires t ∨ IdentityBody t := fun x hx => hi x (by simp [hx])
         by_cases hS : isStart e = true
         · rcases run_start_cases hS h with ⟨mts1, p, hsc, hp, rfl⟩ |
-            ⟨mts1, idx, t, inner, tail, rest', mts3, innerOut, mts4, out, p, hsc, ht, hb, hst, h3, h4, h5, rfl⟩
+            ⟨mts1, idx, t, inner, tail, rest', mts3, innerOut, mts4, out, p, hsc, ht, hst, h3, h4, h5, rfl⟩
           · have h1 : ∀ t ∈ mts1, NeverFires t ∨ IdentityBody t := by
               have := scan_forall static_idOrNever e start end_ 0 mts hm; rw [hsc] at this; exact this
             simp [ih start end_ rest mts1 p h1 hi' hp]
